@@ -354,3 +354,219 @@ Proof.
   exists v, h', s'. split; [exact E|]. split; [exact HI'|]. split; [exact X|].
   split; [exact R|]. exact (mpc_one_ptr d h s v h' s' HI E).
 Qed.
+
+(* ============================================================ machine invariants *)
+Definition code_in (m : vm) (lp : N) (bc : list vcell) : Prop :=
+  exists lid lam, allocated (hp m) lp /\ cell_at (hp m) lp = VLambda lid /\ lid < next_id (st m) /\
+    tget (lams (st m)) lid = Some lam /\ l_bc lam = bc.
+
+Lemma code_in_ext m m' lp bc : code_in m lp bc -> cext m m' -> code_in m' lp bc.
+Proof.
+  intros (lid & lam & A & C & L & T & B) X. destruct (ce_heap _ _ X lp A) as [A' C'].
+  exists lid, lam. split; [exact A'|]. split; [congruence|]. split; [destruct (ce_store _ _ X); lia|].
+  split; [rewrite (ce_lams _ _ X) by assumption; exact T|exact B].
+Qed.
+Lemma code_in_regs m m' lp bc : hp m' = hp m -> st m' = st m -> code_in m lp bc -> code_in m' lp bc.
+Proof. intros Eh Es. unfold code_in. rewrite Eh, Es. auto. Qed.
+
+(* global environment: every bound symbol address has a slot, distinct addresses have
+   distinct slots (GlobalEnvironment::get_binding allocates slots at the end) *)
+Definition ginv (m : vm) : Prop :=
+  (forall a k, assoc_find (g_bind m) a = Some k -> k < len (g_slots m)) /\
+  (forall a a' k, assoc_find (g_bind m) a = Some k -> assoc_find (g_bind m) a' = Some k -> a = a').
+
+Record minv (m : vm) : Prop := {
+  mi_heap : heap_inv (hp m);
+  mi_glob : ginv m;
+  mi_sp : sp m < scap m
+}.
+
+(* the state after Stack::push *)
+Definition pushed (s : vm) (v : vcell) : vm :=
+  with_scap (with_stack s (tset (stack s) (sp s + 1) v) (sp s + 1))
+            (if sp s + 1 <? scap s then scap s else scap s * 2).
+Lemma push_eq v s : push v s = ROk tt (pushed s v).
+Proof. reflexivity. Qed.
+
+Lemma sget_pushed_top s v : sget (pushed s v) (sp s + 1) = v.
+Proof. unfold sget, pushed. cbn [stack with_scap with_stack]. rewrite tget_tset_same. reflexivity. Qed.
+Lemma sget_pushed_other s v j : j <> sp s + 1 -> sget (pushed s v) j = sget s j.
+Proof. intros H. unfold sget, pushed. cbn [stack with_scap with_stack]. rewrite tget_tset_other by congruence. reflexivity. Qed.
+Lemma pushed_sp_lt s v : sp s < scap s -> sp (pushed s v) < scap (pushed s v).
+Proof.
+  intros H. unfold pushed. cbn [sp scap with_scap with_stack].
+  destruct (N.ltb_spec (sp s + 1) (scap s)); lia.
+Qed.
+
+Section Machine.
+Variable ob : N -> M vcell.
+Notation run_one := (Vm.run_one ob).
+Notation steps := (RunProofs.steps ob).
+Notation run_builtin := (Vm.run_builtin ob).
+
+(* ------------------------------------------------------------ fetch *)
+Lemma cur_lambda_ok m lp bc : code_in m lp bc -> fst (ip m) = lp ->
+  exists lam, cur_lambda m = ROk lam m /\ l_bc lam = bc.
+Proof.
+  intros (lid & lam & A & C & _ & L & B) <-. exists lam. split; [|exact B].
+  unfold cur_lambda. rewrite (heap_get_alloc _ _ A), C. unfold get_lambda. rewrite L. reflexivity.
+Qed.
+
+Lemma read_opcode_ok m lp i bc o : code_in m lp bc -> ip m = (lp, i) -> list_get bc i = Some (VOp o) ->
+  read_opcode m = ROk o (with_ip m (lp, i + 1)).
+Proof.
+  intros Hc Hip Hg. destruct (cur_lambda_ok m lp bc Hc) as (lam & E & B); [rewrite Hip; reflexivity|].
+  unfold read_opcode, bindM. rewrite E. unfold get_vm. rewrite B, Hip. cbn [fst snd]. rewrite Hg.
+  reflexivity.
+Qed.
+
+Lemma read_operand_ok m lp i bc v : code_in m lp bc -> ip m = (lp, i) -> list_get bc i = Some v ->
+  (forall o, v <> VOp o) -> read_operand m = ROk v (with_ip m (lp, i + 1)).
+Proof.
+  intros Hc Hip Hg Hno. destruct (cur_lambda_ok m lp bc Hc) as (lam & E & B); [rewrite Hip; reflexivity|].
+  unfold read_operand, bindM. rewrite E. unfold get_vm. rewrite B, Hip. cbn [fst snd]. rewrite Hg.
+  destruct v; try reflexivity. exfalso. eapply Hno. reflexivity.
+Qed.
+
+Ltac fetch_op Hc Hip H0 :=
+  unfold Vm.run_one; unfold bindM at 1;
+  rewrite (read_opcode_ok _ _ _ _ _ Hc Hip H0); cbv beta iota.
+
+Lemma code_in_ip m lp bc x : code_in m lp bc -> code_in (with_ip m x) lp bc.
+Proof. apply code_in_regs; reflexivity. Qed.
+
+(* MOV_IMMEDIATE v %acc *)
+Lemma step_movimm m lp i bc v : code_in m lp bc -> ip m = (lp, i) ->
+  seg bc i [VOp OMovImmediate; v; VAcc] -> (forall o, v <> VOp o) ->
+  run_one m = ROk false (with_acc (with_ip m (lp, i + 3)) v).
+Proof.
+  intros Hc Hip Hs Hno. apply seg_head in Hs as [H0 Hs]. apply seg_head in Hs as [H1 Hs]. apply seg_head in Hs as [H2 _].
+  fetch_op Hc Hip H0.
+  unfold bindM at 1. rewrite (read_operand_ok _ lp (i + 1) bc v (code_in_ip _ _ _ _ Hc) eq_refl H1 Hno).
+  unfold bindM at 1. unfold store_operand. unfold bindM at 1.
+  rewrite (read_operand_ok _ lp (i + 1 + 1) bc VAcc (code_in_ip _ _ _ _ (code_in_ip _ _ _ _ Hc)) eq_refl H2 ltac:(discriminate)).
+  unfold bindM, get_vm, set_acc, ret. unfold with_acc, with_ip. cbn [hp st g_bind g_slots stack scap sp bp ep ip acc out_log].
+  replace (i + 1 + 1 + 1) with (i + 3) by lia. reflexivity.
+Qed.
+
+(* JMP p *)
+Lemma step_jmp m lp i bc p : code_in m lp bc -> ip m = (lp, i) -> seg bc i [VOp OJmp; VPtr p] ->
+  run_one m = ROk false (with_ip m (lp, p)).
+Proof.
+  intros Hc Hip Hs. apply seg_head in Hs as [H0 Hs]. apply seg_head in Hs as [H1 _].
+  fetch_op Hc Hip H0.
+  unfold bindM at 1. rewrite (read_operand_ok _ lp (i + 1) bc _ (code_in_ip _ _ _ _ Hc) eq_refl H1 ltac:(discriminate)).
+  reflexivity.
+Qed.
+
+(* JNT p *)
+Lemma step_jnt m lp i bc p w : code_in m lp bc -> ip m = (lp, i) -> seg bc i [VOp OJnt; VPtr p] ->
+  heap_deref (hp m) (acc m) = Ok w ->
+  run_one m = ROk false (with_ip m (lp, if match w with VBool false => true | _ => false end then p else i + 2)).
+Proof.
+  intros Hc Hip Hs Hw. apply seg_head in Hs as [H0 Hs]. apply seg_head in Hs as [H1 _].
+  fetch_op Hc Hip H0.
+  unfold bindM at 1. rewrite (read_operand_ok _ lp (i + 1) bc _ (code_in_ip _ _ _ _ Hc) eq_refl H1 ltac:(discriminate)).
+  unfold bindM at 1. cbn [as_ptr ret]. unfold bindM at 1. unfold get_vm. unfold bindM at 1.
+  unfold hderef, lift. cbn [hp acc with_ip]. rewrite Hw.
+  replace (i + 2) with (i + 1 + 1) by lia.
+  destruct w; try reflexivity. match goal with x : bool |- _ => destruct x end; reflexivity.
+Qed.
+
+(* MOV (global slot k) %acc *)
+Lemma step_load_global m lp i bc k v : code_in m lp bc -> ip m = (lp, i) ->
+  seg bc i [VOp OMov; VGSlot k; VAcc] -> list_get (g_slots m) k = Some v -> v <> VUndef ->
+  run_one m = ROk false (with_acc (with_ip m (lp, i + 3)) v).
+Proof.
+  intros Hc Hip Hs Hk Hv. apply seg_head in Hs as [H0 Hs]. apply seg_head in Hs as [H1 Hs]. apply seg_head in Hs as [H2 _].
+  fetch_op Hc Hip H0.
+  unfold bindM at 1. unfold load_operand. unfold bindM at 1.
+  rewrite (read_operand_ok _ lp (i + 1) bc _ (code_in_ip _ _ _ _ Hc) eq_refl H1 ltac:(discriminate)).
+  unfold bindM at 1. unfold get_vm. cbn [g_slots with_ip]. rewrite Hk.
+  assert (E : forall (A : Type) (a b : A), match v with VUndef => a | _ => b end = b)
+    by (intros; destruct v; try reflexivity; congruence).
+  rewrite E. unfold ret.
+  unfold bindM at 1. unfold store_operand. unfold bindM at 1.
+  rewrite (read_operand_ok _ lp (i + 1 + 1) bc VAcc (code_in_ip _ _ _ _ (code_in_ip _ _ _ _ Hc)) eq_refl H2 ltac:(discriminate)).
+  unfold bindM, get_vm, set_acc, ret. unfold with_acc, with_ip. cbn [hp st g_bind g_slots stack scap sp bp ep ip acc out_log].
+  replace (i + 1 + 1 + 1) with (i + 3) by lia. reflexivity.
+Qed.
+
+(* MOV %acc (global slot k) *)
+Lemma step_store_global m lp i bc k : code_in m lp bc -> ip m = (lp, i) ->
+  seg bc i [VOp OMov; VAcc; VGSlot k] -> k < len (g_slots m) ->
+  run_one m = ROk false (with_globals (with_ip m (lp, i + 3)) (g_bind m) (list_set (g_slots m) k (acc m))).
+Proof.
+  intros Hc Hip Hs Hk. apply seg_head in Hs as [H0 Hs]. apply seg_head in Hs as [H1 Hs]. apply seg_head in Hs as [H2 _].
+  fetch_op Hc Hip H0.
+  unfold bindM at 1. unfold load_operand. unfold bindM at 1.
+  rewrite (read_operand_ok _ lp (i + 1) bc _ (code_in_ip _ _ _ _ Hc) eq_refl H1 ltac:(discriminate)).
+  unfold bindM at 1. unfold get_vm. unfold ret.
+  unfold bindM at 1. unfold store_operand. unfold bindM at 1.
+  rewrite (read_operand_ok _ lp (i + 1 + 1) bc _ (code_in_ip _ _ _ _ (code_in_ip _ _ _ _ Hc)) eq_refl H2 ltac:(discriminate)).
+  unfold bindM at 1. unfold get_vm. cbn [g_slots with_ip acc]. apply N.ltb_lt in Hk. rewrite Hk.
+  unfold bindM, ret. unfold with_globals, with_ip. cbn [hp st g_bind g_slots stack scap sp bp ep ip acc out_log].
+  replace (i + 1 + 1 + 1) with (i + 3) by lia. reflexivity.
+Qed.
+
+(* PUSH %acc *)
+Lemma step_pushacc m lp i bc : code_in m lp bc -> ip m = (lp, i) -> seg bc i [VOp OPushAcc] ->
+  run_one m = ROk false (pushed (with_ip m (lp, i + 1)) (acc m)).
+Proof.
+  intros Hc Hip Hs. apply seg_head in Hs as [H0 _].
+  fetch_op Hc Hip H0. reflexivity.
+Qed.
+
+(* PUSH_IMMEDIATE v *)
+Lemma step_pushimm m lp i bc v : code_in m lp bc -> ip m = (lp, i) -> seg bc i [VOp OPushImmediate; v] ->
+  (forall o, v <> VOp o) ->
+  run_one m = ROk false (pushed (with_ip m (lp, i + 2)) v).
+Proof.
+  intros Hc Hip Hs Hno. apply seg_head in Hs as [H0 Hs]. apply seg_head in Hs as [H1 _].
+  fetch_op Hc Hip H0.
+  unfold bindM at 1. rewrite (read_operand_ok _ lp (i + 1) bc _ (code_in_ip _ _ _ _ Hc) eq_refl H1 Hno).
+  replace (i + 2) with (i + 1 + 1) by lia. reflexivity.
+Qed.
+
+(* CALL %acc / TCALL %acc of a builtin procedure: run it, box the result *)
+Lemma box_m (r : vcell) m2 v' h' :
+  (match r with VPtr _ => (r, hp m2) | _ => heap_maybe_put (hp m2) r end) = (v', h') ->
+  (match r with VPtr _ => ret r | _ => hmaybe_put r end) m2 = ROk v' (with_heap m2 h').
+Proof.
+  intros E. destruct r; unfold hmaybe_put; try (rewrite E; reflexivity).
+  injection E as <- <-. destruct m2; reflexivity.
+Qed.
+
+Lemma step_call_builtin m lp i bc (tail : bool) b r m2 v' h' : code_in m lp bc -> ip m = (lp, i) ->
+  seg bc i [VOp (if tail then OTCallAcc else OCallAcc)] ->
+  heap_deref (hp m) (acc m) = Ok (VBuiltin b) ->
+  run_builtin b (with_ip m (lp, i + 1)) = ROk r m2 ->
+  (match r with VPtr _ => (r, hp m2) | _ => heap_maybe_put (hp m2) r end) = (v', h') ->
+  run_one m = ROk false (with_acc (with_heap m2 h') v').
+Proof.
+  intros Hc Hip Hs Hd Hb Hbox. apply seg_head in Hs as [H0 _].
+  fetch_op Hc Hip H0.
+  assert (E : Vm.resolve_callee ob (with_ip m (lp, i + 1)) = ROk CDone (with_acc (with_heap m2 h') v')).
+  { unfold Vm.resolve_callee. unfold bindM at 1. unfold get_vm. unfold bindM at 1.
+    unfold hderef, lift. cbn [hp acc with_ip]. rewrite Hd.
+    unfold bindM at 1. rewrite Hb. unfold bindM at 1. rewrite (box_m r m2 v' h' Hbox). reflexivity. }
+  destruct tail; unfold bindM at 1; rewrite E; reflexivity.
+Qed.
+
+(* ------------------------------------------------------------ runs *)
+Lemma steps_one m m' : run_one m = ROk false m' -> steps 1 m = Some m'.
+Proof. intros H. cbn [RunProofs.steps]. rewrite H. reflexivity. Qed.
+Lemma steps_trans a b m1 m2 m3 : steps a m1 = Some m2 -> steps b m2 = Some m3 -> steps (a + b) m1 = Some m3.
+Proof. intros H1 H2. rewrite steps_add, H1. exact H2. Qed.
+
+(* n instructions that neither halt nor fail, then the rest of the run *)
+Lemma run_loop_steps n : forall m m' f cyc, steps n m = Some m' ->
+  Vm.run_loop ob (n + f) cyc None m = Vm.run_loop ob f 0 None m'.
+Proof.
+  induction n as [|n IH]; intros m m' f cyc H; cbn [RunProofs.steps] in H.
+  - injection H as <-. cbn [Nat.add]. apply run_loop_none_cyc.
+  - cbn [Nat.add]. rewrite run_loop_S.
+    destruct (run_one m) as [[|] m1|e1 m1 s1| |]; try discriminate. apply IH. exact H.
+Qed.
+
+End Machine.
